@@ -3,7 +3,7 @@
 package storage
 
 import (
-	"encoding/binary"
+	"bytes"
 	"sync"
 )
 
@@ -81,9 +81,9 @@ func verifOrderIO(kind string, off int64, b []byte) {
 		verifOrderAdd(e)
 	case "hdr":
 		e := VerifOrderEv{E: "hdr"}
-		if len(b) >= 28 {
-			e.Nx = int(binary.LittleEndian.Uint64(b[12:20]) / pageSize)
-			e.Next = binary.LittleEndian.Uint64(b[20:28])
+		if h, ok := verifDecodeHeader(b); ok {
+			e.Nx = h.Nx
+			e.Next = h.LSN
 		}
 		verifOrderAdd(e)
 	}
@@ -99,9 +99,10 @@ func verifOrderWalIO(kind string, b []byte) {
 	switch kind {
 	case "body":
 		e := VerifOrderEv{E: "wal"}
-		if len(b) >= 17 {
-			e.LSN = binary.LittleEndian.Uint64(b[1:9])
-			e.ID = int(binary.LittleEndian.Uint64(b[9:17]) / pageSize)
+		var w WALEntry
+		if err := w.decode(bytes.NewBuffer(append([]byte(nil), b...))); err == nil {
+			e.LSN = w.LSN
+			e.ID = int(w.pageID / pageSize)
 		}
 		verifOrderAdd(e)
 	case "sync":
